@@ -7,7 +7,7 @@ import hashlib
 
 import numpy as np
 
-from .. import expo, obs, ref, world
+from .. import expo, obs, probes, ref, world
 
 ID = "C03"
 LEVEL = "exploration"
@@ -26,7 +26,7 @@ ASSUMPTIONS = [
 ]
 COMPONENTS = {"real": ["pyxel exposure/run_pipeline/containers/ModelGroup debug capture", "xarray"], "stub": []}
 BUDGET = {"quick": {"n": 480, "wall": 100, "determinism": 4}, "thorough": {"n": 12000, "wall": 1500, "determinism": 12}}
-REQUIRED_REACH = ["inplace_photon_add", "clusters_written", "debug_runs", "photon3d_runs", "flat_layout_compared", "scene_runs", "data_runs", "image_dtype:uint8", "image_dtype:uint64", "float_dtype:float16", "multi_step"]
+REQUIRED_REACH = ["rerun_with_other_start_time", "clusters_edited_in_place", "inplace_photon_add", "clusters_written", "debug_runs", "photon3d_runs", "flat_layout_compared", "scene_runs", "data_runs", "image_dtype:uint8", "image_dtype:uint64", "float_dtype:float16", "multi_step"]
 
 IMG = ("uint8", "uint16", "uint32", "uint64")
 FLT = ("float16", "float32", "float64")
@@ -55,6 +55,8 @@ def generate(rng, tier):
         w = [(b + "+") if (b in ("photon", "photon3d") and rng.random() < 0.4) else b for b in w]
         if rng.random() < 0.15:
             w.append("clusters")
+        if rng.random() < 0.12:
+            w.append("clusters*2")  # edits the clusters present at that moment in place
         if rng.random() < 0.15:
             w.append("scene")
         if rng.random() < 0.2:
@@ -65,6 +67,9 @@ def generate(rng, tier):
         a["snap_trees"] = True
     if not any(m["arguments"]["write"] for m in en):
         en[-1]["arguments"]["write"] = ["pixel", "image"]
+    # history: the same objects are run a second time with another start time (same readout times)
+    t0, st = scn["readout"]["times"][0], scn["readout"].get("start_time", 0.0)
+    scn["rerun_start"] = round(st + (t0 - st) * rng.choice([0.25, 0.5]), 6) if rng.random() < 0.4 else None
     return scn
 
 
@@ -217,6 +222,14 @@ def _check_debug(scn, rec, viol):
 
 
 def execute(scn):
+    probes.TRUTH_FROM_FRAME = True
+    try:
+        return _execute(scn)
+    finally:
+        probes.TRUTH_FROM_FRAME = False
+
+
+def _execute(scn):
     viol, stats = [], {}
     times = scn["readout"]["times"]
     written = _written(scn)
@@ -229,6 +242,18 @@ def execute(scn):
         if scn["debug"]:
             stats["debug_runs"] = 1
             _check_debug(scn, a, viol)
+    if scn.get("rerun_start") is not None and a["exc"] is None and a.get("objects"):
+        stats["rerun_with_other_start_time"] = 1
+        s2 = copy.deepcopy(scn)
+        s2["readout"]["start_time"] = scn["rerun_start"]
+        mode = a["objects"][0]
+        mode.readout.start_time = scn["rerun_start"]
+        probes.HIST.clear()
+        c = expo.run_exposure(s2, objects=a["objects"], debug=False, inherited=True, reset=False)
+        if c["exc"] is not None:
+            viol.append({"clause": "C03.returns", "signature": f"C03.returns@second-run-raises:{type(c['exc']).__name__}", "detail": {"exc": repr(c["exc"])[:300], "tb": c.get("tb", "")[-800:]}})
+        else:
+            _check_tree(s2, c, "hier+second-run", viol, stats)
     b = expo.run_exposure(scn, debug=False, inherited=False)
     if b["exc"] is not None:
         viol.append({"clause": "C03.returns", "signature": f"C03.returns@flat-raises:{type(b['exc']).__name__}", "detail": {"exc": repr(b["exc"])[:300], "tb": b.get("tb", "")[-800:]}})
@@ -248,6 +273,8 @@ def execute(scn):
         stats["inplace_photon_add"] = 1
     if "clusters" in written:
         stats["clusters_written"] = 1
+    if "clusters*2" in written and "clusters" in written:
+        stats["clusters_edited_in_place"] = 1
     if len(times) > 1:
         stats["multi_step"] = 1
     idt = next((m["arguments"]["image_dtype"] for _, m in ref.enabled_models(scn["pipeline"])), "uint16")
